@@ -541,7 +541,8 @@ def parse_line(line: str) -> Optional[instructions.Instruction]:
 
     f: Callable[[str], Instruction]
     for key, f in parser_rules:
-        if line.startswith(key):
+        # a rule without a trailing space has to match the whole opcode: "dupx" is not "dup".
+        if line.startswith(key) and (key.endswith(" ") or line[len(key) :][:1] in ("", " ")):
             ins = f(line[len(key) :].strip())
             ins.comment = comment
             ins.source_code = source_code_line
